@@ -16,6 +16,11 @@ Decided:
               pending_bytes < region_size holds (strictly). When pending records fill the ring to its last byte the
               write head has wrapped onto the header of the oldest pending record, and a sentinel there makes the
               scan stop at offset 0: every pending record is lost.
+  FLOW-C05h   a WAL opened from a header continues numbering after the checkpoint: every value that open_internal (or
+              an EmbeddedWal helper it calls) puts into EmbeddedWal.sequence derives from Header.wal_sequence, from the
+              handle's own checkpoint_sequence/sequence (fallbacks), and at least one of them from the header. With an
+              empty region and a counter restarted below wal_sequence, the next acknowledged record carries a sequence
+              <= checkpoint_sequence and every scan (pending_records, recovery) filters it out: the record is lost.
 Not decided: the exhaustive state-space claim over operation sequences."""
 from . import lib
 from .facts import Place, op_place
@@ -350,8 +355,51 @@ def _sentinel_slot(ctx, F):
                     'and the sentinel erases it (the scan then stops at offset 0 and every pending record is lost)', line=z.line, sink='write_zero_header', detail='sentinel-on-full-ring')
 
 
+def _open_sequence(ctx, F):
+    ctx.rule('FLOW-C05h', 'open_internal seeds EmbeddedWal.sequence from Header.wal_sequence (directly or as the fallback of the scan)')
+    fn = ctx.need('FLOW-C05h', 'EmbeddedWal::open_internal')
+    if fn is None:
+        return
+    mine = {f.path: f for f in wal_fns(F)}
+    reach = {p: f for p, f in lib.reachable_fns(F, [fn]).items() if p in mine or p == fn.path}
+    sources = []      # (fn, slice, line, what)
+    ckpt_from_header = False
+    for f in reach.values():
+        ctx.touch(f, len(f.blocks))
+        for body in [f] + F.closures_of(f):
+            for bb, i, st in body.stmts():
+                rv = st['rv']
+                if rv['k'] == 'agg' and rv.get('ak') == 'adt' and rv.get('adt') == WAL and 'sequence' in (rv.get('fields') or []):
+                    sources.append((body, lib.slice_back(body, [rv['ops'][rv['fields'].index('sequence')]], through_calls=True, at=(bb, i)), st.get('l'), 'initialiser'))
+                    if 'checkpoint_sequence' in rv['fields'] and lib.slice_back(body, [rv['ops'][rv['fields'].index('checkpoint_sequence')]], through_calls=True, at=(bb, i)).has_field('Header', 'wal_sequence'):
+                        ckpt_from_header = True
+            for stx in lib.field_stores(body, WAL, 'sequence'):
+                if stx['lhs'].field_owners()[-1] != (WAL, 'sequence'):
+                    continue
+                sources.append((body, lib.slice_back(body, lib.rv_operands(stx['rv']), through_calls=True, at=(stx['bb'], stx['idx'])), stx['line'], 'store'))
+    if not sources:
+        ctx.lost('FLOW-C05h', 'open_internal: no construction of EmbeddedWal.sequence found')
+        return
+    seeded = False
+    bad = []
+    for body, sl, line, what in sources:
+        ctx.evaluations += 1
+        hdr = sl.has_field('Header', 'wal_sequence') or (ckpt_from_header and sl.has_field(WAL, 'checkpoint_sequence'))
+        seeded = seeded or hdr
+        if not (hdr or sl.has_field(WAL, 'sequence') or sl.has_field(WAL, 'checkpoint_sequence')):
+            bad.append((body, line, what))
+    if bad or not seeded:
+        body, line, what = bad[0] if bad else (sources[0][0], sources[0][2], sources[0][3])
+        ctx.bad('FLOW-C05h', body, 'the %s of EmbeddedWal.sequence on the open path does not derive from Header.wal_sequence: when the region scans empty after a checkpoint the counter restarts '
+                'below the checkpoint sequence, the next acknowledged record is numbered <= checkpoint_sequence and every later scan filters it out (lost record)' % what,
+                line=line, sink='EmbeddedWal.sequence', detail='open-sequence-not-from-header')
+    else:
+        ctx.ok('FLOW-C05h', fn, 'all %d value(s) placed in EmbeddedWal.sequence on the open path derive from Header.wal_sequence or the handle\'s own counters' % len(sources))
+
+
 def run(ctx):
     _sentinel_slot(ctx, ctx.facts())
+    _open_sequence(ctx, ctx.facts())
     ctx.rule('GUARD-C05a', 'a ring position becomes 0 only where pending_bytes == 0 is established (edge, dominating store, or every caller)')
     ctx.rule('MPT-C05b', 'append_entry: write_record ok -> bookkeeping -> maybe_write_sentinel ok on every Ok path')
     ctx.rule('GUARD-C05c', 'append_entry: capacity comparisons dominate the write and reject with CheckpointFailed')
